@@ -47,6 +47,8 @@ func C13(c *Ctx) {
 	r.Rule("C13-i", "no store into a possibly nil map: every `m[k] = v` in the generator whose m is a local map variable has only definitions that yield a non-nil map (make, a map literal, or a call to a function of the package all of whose returns are such values); parameters, fields and map elements are the owner's responsibility and are covered by the rules of their owner")
 	r.Rule("C13-j", "every index with a constant or len(x)-1 subscript into a string or slice in the generator (x[0], x[len(x)-1]) is dominated by a length test of the same x: a conjunct to its left in the same condition, an enclosing if, or an early exit `if len(x) == 0 { return }` after the last assignment to x (empty code blocks `{}` and empty classes `[]` are valid grammar text)")
 	r.Rule("C13-k", "a loop that runs while a local list or string is not empty (len(x) > 0, x != \"\") makes x shorter on every path round the loop: x = x[c:], x = x[:len(x)-c], the tail of strings.Cut, in the body or the post statement; a list re-read from elsewhere is no progress argument (the tool terminates on every argument list and grammar text)")
+	r.Rule("C13-l", "the nullable pass remembers completed visits: an entry test of Rule.NullableVisit reads a field that stays set after the visit (a mark that is cleared on the way out only cuts cycles; a rule reached over k paths is then analysed k times, 2^n for a chain of n doubling rules)")
+	r.Rule("C13-m", "a recursive search over the first-graph marks the vertices it has finished in a set shared by all branches; a closure that recurses into every successor and is cut only by the path it carries enumerates every simple path (more than n! for n rules that all start with each other)")
 	r.Rule("C13-c", "main passes Recover(!*noRecoverFlag) to ParseReader")
 
 	g := c.G()
@@ -100,6 +102,7 @@ func C13(c *Ctx) {
 	optimizerInlining(c, g, "C13-h")
 	c13IO(c, g)
 	c13DrainLoops(c, g)
+	c13Hangs(c, g)
 	c13NilMaps(c, g)
 	c13ConstIndex(c, g)
 	c13Exit(c, g)
